@@ -18,7 +18,7 @@ Theorem C11_resp_wellformed :
 Proof. exact handle_wellformed. Qed.
 Print Assumptions C11_resp_wellformed.
 
-(* ---- outside the four situations [no_deviation] excludes, the server does exactly what JSON-RPC 2.0
+(* ---- outside the five situations [no_deviation] excludes, the server does exactly what JSON-RPC 2.0
    prescribes: same invocations, same output (responses in request order) *)
 Theorem C11_refines_spec :
   forall coerce zero run (ms : methods) (inp : input),
@@ -40,7 +40,7 @@ Print Assumptions C11_spec_ok.
    error-code deviations do not matter here. *)
 Theorem C11_resp_correlated :
   forall coerce zero run (ms : methods) (inp : input),
-    grammar_ok inp = true ->
+    grammar_ok inp = true -> dev_batch_window inp = false ->
     dev_null_id coerce zero ms inp = false -> dev_notif_error coerce zero ms inp = false ->
     resp_correlated coerce zero run ms inp (snd (handle coerce zero run ms inp)) = true.
 Proof. exact resp_correlated_lemma. Qed.
@@ -58,7 +58,7 @@ Print Assumptions C11_codes.
    method and bindable params, with the bound arguments — whatever the ids / notification status are *)
 Theorem C11_calls_once :
   forall coerce zero run (ms : methods) (inp : input),
-    grammar_ok inp = true ->
+    grammar_ok inp = true -> dev_batch_window inp = false ->
     calls_once coerce zero run ms inp (fst (handle coerce zero run ms inp)) = true.
 Proof. exact calls_once_lemma. Qed.
 Print Assumptions C11_calls_once.
@@ -169,6 +169,15 @@ Theorem C11_notification_error_refuted :
   resp_correlated coerce_go zero_go run_echo ms_demo w_notif_error (snd (hdl w_notif_error)) = false.
 Proof. exact notif_error_refuted. Qed.
 Print Assumptions C11_notification_error_refuted.
+
+Theorem C11_batch_window_refuted :
+  grammar_ok w_window = true /\ dev_batch_window w_window = true /\
+  hdl w_window = ([], Some parse_error) /\
+  spc w_window = ([(L"add", [JNum L"1"; JNum L"2"])],
+                  Some (JArr [mk_result (JNum L"7") (JArr [JNum L"1"; JNum L"2"])])) /\
+  calls_once coerce_go zero_go run_echo ms_demo w_window (fst (hdl w_window)) = false.
+Proof. exact batch_window_refuted. Qed.
+Print Assumptions C11_batch_window_refuted.
 
 Theorem C11_positional_eq_named_needed :
   optional_tail (m_params m_mid) = false /\ NoDup (map p_name (m_params m_mid)) /\
